@@ -107,6 +107,8 @@ H(t) == IF IsLeaf(t) THEN LeafCode(t.k) ELSE (H(t.l) * 31 + H(t.r) * 17 + OpCode
 Sampled(t) == \/ Level(t) <= 1
               \/ Level(t) = 2 /\ (SampleMod = 1 \/ (H(t) + SampleSeed) % SampleMod = 0)
               \/ Level(t) > 2 /\ (H(t) + SampleSeed) % DeepMod = 0
+\* which trees with 2 or more operator levels are grown further: all of a sample, 1 in 97 of the complete set
+GrowsOn(t) == Level(t) < 2 \/ SampleMod > 1 \/ (H(t) + SampleSeed) % 97 = 0
 
 -----------------------------------------------------------------------------
 (* PROPERTY: pointwise semantics                                           *)
@@ -205,7 +207,7 @@ Init == /\ tree \in T0 /\ pc = "grow" /\ orig = Obj0 /\ copy = Obj0
         /\ pickled = [has |-> FALSE, td |-> "unset"] /\ last = None /\ ncalls = 0
 
 \* enumeration of the expressions, one operator at a time (either side)
-Grow == /\ pc = "grow" /\ Level(tree) < MaxLevel
+Grow == /\ pc = "grow" /\ Level(tree) < MaxLevel /\ GrowsOn(tree)
         /\ \E o \in Ops, s \in T1, side \in {"l", "r"} :
              LET nt == IF side = "l" THEN Node(o, tree, s) ELSE Node(o, s, tree) IN
                /\ Level(s) <= Level(tree)
